@@ -227,7 +227,19 @@ func Build(a *ref.AP, t *sim.Tape) (mq.Packet, []Op, error) {
 		ops = Shuffle(ops, t)
 		if t.Bool(1, 3) {
 			var out []Op
+			nf := 0 // filters added so far
 			for _, o := range ops {
+				if o.Kind == "filters" && a.Type == ref.Subscribe && len(o.Fs) == 1 && t.Bool(1, 2) {
+					// add the filter under another name, then correct it in place
+					// through the slice Filters() returns
+					out = append(out, Op{Kind: "filters", Fs: []ref.Filter{{Name: append([]byte("decoy/"), o.Fs[0].Name...), Opts: o.Fs[0].Opts ^ 1}}})
+					out = append(out, Op{Kind: "editfilter", N: uint32(nf), B: o.Fs[0].Name, ID: o.Fs[0].Opts})
+					nf++
+					continue
+				}
+				if o.Kind == "filters" {
+					nf += len(o.Fs)
+				}
 				if d, ok := decoy(o); ok && t.Bool(1, 2) {
 					// the decoy goes somewhere before the real call
 					at := t.Int(len(out) + 1)
